@@ -732,7 +732,7 @@ def g_nfah_hist(rng):
 
 # ---------------------------------------------------------------- bounding product growth in histories
 _CREATING = {"def", "defo", "new", "copy", "copynt", "copynf", "move", "union", "uniondisj", "isect", "isectbu", "rev", "unreach",
-             "useless", "cand", "reduce", "reindex", "totd"}
+             "useless", "cand", "reduce", "reindex", "reidx", "totd"}
 
 
 def _tok_size(tok, sep):
